@@ -6,7 +6,7 @@ worktree of /repo HEAD, runs the given checks (default: <prop>) against it throu
 import json, os, re, shutil, subprocess, sys, time
 
 name, prop = sys.argv[1], sys.argv[2]
-checks = sys.argv[3:] or [prop]
+checks = [prop] + [c for c in sys.argv[3:] if c != prop]
 src = "/tmp/seed/" + name
 wt = "/tmp/seedchk/" + name
 ENV = dict(os.environ, GOFLAGS="-mod=mod", GOPROXY="off", GOSUMDB="off", GOTOOLCHAIN="local")
